@@ -5,7 +5,7 @@ import ast
 import copy
 from typing import Dict, List, Optional, Set, Tuple
 
-from ..callgraph import all_nodes
+from ..callgraph import all_nodes, own_nodes
 from ..cfg import CFG, target_names
 from ..core import Ctx
 from ..flow import call_name, get_flow
@@ -94,6 +94,21 @@ def r1_identifiers(ctx: Ctx) -> None:
             continue
         ok = any(isinstance(s, ast.Assign) and src(s.value).endswith('.id.lower()') for s in ast.walk(m.node))
         ctx.check(ok, 'C04.R1', m, f'define:{mname}', 'loop / walrus variable stored lower-cased', 'loop or walrus variable is stored as written but looked up lower-cased', m.node)
+
+    # every identifier read off an expression tree (`<node>.id`) anywhere in the package is lower-cased before it is used as a name
+    # (a read inside a `raise` only feeds the message)
+    n_id = 0
+    for fi in proj.all_funcs():
+        for n in own_nodes(fi.node):
+            if isinstance(n, ast.Attribute) and n.attr == 'id' and isinstance(n.ctx, ast.Load):
+                par = parent(n)
+                lowered = isinstance(par, ast.Attribute) and par.attr in ('lower', 'casefold') and isinstance(parent(par), ast.Call)
+                in_raise = any(isinstance(a, ast.Raise) for a in ancestors(n))
+                n_id += 1
+                ctx.check(lowered or in_raise, 'C04.R1', fi, f'identifier-read:{src(n)}', f'{src(n)} is lower-cased before use',
+                          f'{src(n)!r} is used as written: names taken from an expression are compared with tables whose keys are lower-cased, so a name spelled with capitals is not found '
+                          f'(changing the letter case of a variable name changes the result)', n)
+    ctx.need(n_id >= 6, f'C04.R1: only {n_id} identifier reads (<node>.id) found in the package')
 
     def key_lowered(f: FuncInfo, key_expr, at, tables=()) -> bool:
         fl = get_flow(proj, f)
